@@ -388,7 +388,7 @@ theorem finish_clean (root : Node) (st : St σ) (h : st.edits = []) :
 theorem sim_node_succ {root : Node} {vk : String → List String} {v : Visitor σ} (hv : NonEditing v)
     (d : Nat) (hrec : NodeSim root vk v (specNode vk v d)) : NodeSim root vk v (specNode vk v (d + 1)) := by
   intro st1 c w res hnode hclean hpos hw hspec
-  simp only [specNode] at hspec
+  simp only [specNode, specBody] at hspec
   rw [hw] at hspec
   have hne := hv st1.vs ⟨.enter, c, st1.key, st1.parent, st1.rpath.reverse, st1.ranc.reverse⟩
   rcases hcall : v st1.vs ⟨.enter, c, st1.key, st1.parent, st1.rpath.reverse, st1.ranc.reverse⟩ with ⟨a, s1⟩
